@@ -315,6 +315,21 @@ theorem list_after_set (repos : List Repo) (docs : List Doc) (hwf : ListWF repos
     · simp [h1]
 
 
+/-- **survives reloading, also when the sidecar cannot be read**: a (re)load either fails or yields exactly the sidecar-first
+    metadata; in particular after a successful `SetTombstone` every load that succeeds — whatever read faults occur —
+    shows the repository tombstoned, so it stays out of Search and List (`search_hides`, `list_hides`) -/
+theorem reload_under_read_fault (s : Shard) (id : Nat) (t readOk : Bool) :
+    checkLoad s.base s.side (s.loadIO readOk) = true ∧
+    ∀ l, (setTombstone s id t true).1.loadIO readOk = some l → ∀ r ∈ l, r.id = id → r.tomb = t := by
+  constructor
+  · cases readOk <;> simp [Shard.loadIO, checkLoad, Shard.load]
+  · intro l hl
+    cases readOk
+    · simp [Shard.loadIO] at hl
+    · simp only [Shard.loadIO, if_true, Option.some.injEq] at hl
+      subst hl
+      exact (survives_reload s id t).2
+
 /-! ## searches with a per-repository limit (`ShardRepoMaxMatchCount`) -/
 
 /-- **a per-repository limit never lets a hidden document through**: whatever the limit, the counter state and the
